@@ -387,7 +387,7 @@ Proof.
   intros Hi A. split.
   - apply alive_false. intros k' Hk' E.
     pose proof (proj1 (alive_false w i) A) as Nw.
-    destruct k as [q t pp cm|q|q|q|d]; cbn [kstep table] in Hk'.
+    destruct k as [q t pp cm|q|q|q|d|q|q]; cbn [kstep table] in Hk'.
     + apply in_app_iff in Hk' as [Hk'|[Hk'|[]]]; [eapply Nw; eauto|].
       subst k'. cbn [kinc] in E. lia.
     + apply in_map_iff in Hk' as [k0 [E0 Hk0]]. subst k'.
@@ -395,6 +395,8 @@ Proof.
     + apply in_map_iff in Hk' as [k0 [E0 Hk0]]. subst k'.
       apply (Nw k0 Hk0). destruct (kpid k0 =? q); auto.
     + apply filter_In in Hk' as [Hk' _]. eapply Nw; eauto.
+    + eapply Nw; eauto.
+    + eapply Nw; eauto.
     + eapply Nw; eauto.
   - destruct k; cbn [kstep nextinc]; lia.
 Qed.
@@ -506,6 +508,15 @@ Lemma nonset_effects w c :
   (forall o s, c <> Set_ o s) -> (forall o s, c <> SetAct o s) -> effects_of w (EC c) = [].
 Proof. intros N N'. rewrite effects_call, mcall_nonset_scs by auto. reflexivity. Qed.
 
+Lemma no_identity_false w o : Inv w -> no_identity w o = false.
+Proof.
+  intros I. unfold no_identity. destruct (nth_error (objs (ms w)) o) as [x|] eqn:Ex; auto.
+  destruct (Forall2_nth_l _ _ _ _ _ (inv_objs _ I) Ex) as (i & Ei & O).
+  rewrite (nth_error_nth_default _ _ _ (-1) Ei).
+  destruct O as ([(s0 & -> & _)|(Ei' & -> & _)] & _ & _ & _ & R); auto.
+  apply Z.leb_gt. lia.
+Qed.
+
 Lemma step_meets_spec h c : wf_hist h = true ->
   match spec_call (run h) c with
   | Some l => In (outcome_of (run h) (EC c), delivered (effects_of (run h) (EC c))) l
@@ -528,17 +539,21 @@ Proof.
     rewrite nonset_effects by (intros; discriminate). rewrite outcome_call. cbn [mcall]. unfold has_obj in H.
     destruct (nth_error (objs (ms (run h))) o); [|discriminate]. left; reflexivity.
   - (* IsRunning *)
+    rewrite (no_identity_false _ o I), (inv_nodeny _ I). cbn [memz existsb negb]. rewrite !andb_true_r.
     destruct (has_obj (run h) o) eqn:H; auto.
     rewrite nonset_effects by (intros; discriminate). rewrite (is_running_answer h o W H). left; reflexivity.
   - (* EqC *)
+    rewrite (no_identity_false _ a I), (no_identity_false _ b I). cbn [negb]. rewrite !andb_true_r.
     destruct (has_obj (run h) a) eqn:Ha; cbn [andb]; auto. destruct (has_obj (run h) b) eqn:Hb; cbn [andb]; auto.
     destruct ((0 <=? g_inc (run h) a) || (0 <=? g_inc (run h) b)); auto.
     rewrite nonset_effects by (intros; discriminate). rewrite (eq_iff_same_incarnation h a b W Ha Hb). left; reflexivity.
   - (* HashEq *)
+    rewrite (no_identity_false _ a I), (no_identity_false _ b I). cbn [negb]. rewrite !andb_true_r.
     destruct (has_obj (run h) a) eqn:Ha; cbn [andb]; auto. destruct (has_obj (run h) b) eqn:Hb; cbn [andb]; auto.
     destruct ((0 <=? g_inc (run h) a) || (0 <=? g_inc (run h) b)); auto.
     rewrite nonset_effects by (intros; discriminate). rewrite (hash_follows_eq h a b W Ha Hb). left; reflexivity.
   - (* Set_ *)
+    rewrite (no_identity_false _ o I), (inv_nodeny _ I). cbn [memz existsb negb]. rewrite !andb_true_r.
     destruct (has_obj (run h) o) eqn:H; auto.
     destruct (obj_pid_creation h o W H) as [Ep _]. rewrite <- Ep.
     destruct (set_answer (run h) o s I H) as (Sa & So & Sn). cbn zeta in *.
@@ -616,8 +631,8 @@ Proof.
 Qed.
 
 (* ================================================================ C01: the call taken apart (probe, window, system call) *)
-Lemma view_of_ext w w' : table w' = table w -> btime w' = btime w -> view_of w' = view_of w.
-Proof. intros Et Eb. unfold view_of. rewrite Et, Eb. reflexivity. Qed.
+Lemma view_of_ext w w' : table w' = table w -> btime w' = btime w -> denied w' = denied w -> view_of w' = view_of w.
+Proof. intros Et Eb Ed. unfold view_of. rewrite Et, Eb, Ed. reflexivity. Qed.
 
 Lemma tag_ext w w' : table w' = table w -> tag w' = tag w.
 Proof. intros Et. unfold tag, owner. rewrite Et. reflexivity. Qed.
@@ -629,12 +644,12 @@ Proof. apply skipn_all2. rewrite upd_nth_length. lia. Qed.
 Lemma probe_world w o x : nth_error (objs (ms w)) o = Some x ->
   let x1 := fst (fst (do_probe (view_of w) x)) in
   let w1 := fst (fst (cstep w (SetProbe o))) in
-  table w1 = table w /\ btime w1 = btime w /\ hist w1 = hist w
+  table w1 = table w /\ btime w1 = btime w /\ (hist w1 = hist w /\ denied w1 = denied w)
   /\ nth_error (objs (ms w1)) o = Some x1
   /\ snd (fst (cstep w (SetProbe o))) = snd (fst (do_probe (view_of w) x)).
 Proof.
   intros Ex. cbn zeta. rewrite cstep_eq. cbn [fst snd mcall]. rewrite Ex.
-  destruct (do_probe (view_of w) x) as [[x1 r] add]. cbn [fst snd table btime hist ms with_reusedset with_objs objs].
+  destruct (do_probe (view_of w) x) as [[x1 r] add]. cbn [fst snd table btime hist denied ms with_reusedset with_objs objs].
   splits; auto. eapply nth_error_upd_same; eauto.
 Qed.
 
@@ -659,12 +674,12 @@ Proof.
   intros H. unfold has_obj in H. destruct (nth_error (objs (ms w)) o) as [x|] eqn:Ex; [|discriminate].
   rewrite outcome_call, effects_call. destruct (mcall_set w o s x Ex) as [-> ->].
   rewrite do_setter_split.
-  destruct (probe_world w o x Ex) as (Et & Eb & _ & En & Er). cbn zeta in *.
+  destruct (probe_world w o x Ex) as (Et & Eb & (_ & Ed) & En & Er). cbn zeta in *.
   unfold outcome_of, effects_of. cbn [step fold_left].
   destruct (cstep w (SetProbe o)) as [[w1 r1] e1]. cbn [fst snd] in *. subst r1.
   destruct (do_probe (view_of w) x) as [[x1 r] add]. cbn [fst snd] in *.
   destruct r as [u|e|]; cbn [fst snd]; auto.
-  rewrite cstep_eq. cbn [fst snd mcall]. rewrite En, (view_of_ext w w1 Et Eb), (tag_ext w w1 Et).
+  rewrite cstep_eq. cbn [fst snd mcall]. rewrite En, (view_of_ext w w1 Et Eb Ed), (tag_ext w w1 Et).
   destruct (setter_body (view_of w) x1 s) as [[x2 r2] scs]. cbn [fst snd]. auto.
 Qed.
 
